@@ -241,6 +241,22 @@ func main() {
 					add(s)
 				}
 			}
+			if rot == 0 || rot == 1<<32-1 {
+				for _, fill := range []int{0, capa / 2, capa} {
+					for _, pg := range [][]prog{
+						{{"push:1"}, {"push:2"}, {"pop"}, {"pop"}},
+						{{"push:1", "pop"}, {"push:2"}, {"pop"}, {"len"}},
+					} {
+						var names []string
+						for _, q := range pg {
+							names = append(names, strings.Join(q, ","))
+						}
+						s4 := scenario("four/"+strings.Join(names, "|"), capa, fill, rot, "", pg...)
+						s4.ThoroughOnly, s4.Heavy = true, true
+						specs = append(specs, s4)
+					}
+				}
+			}
 			// waiting variants: spin-with-yield must terminate, values arrive in order
 			specs = append(specs,
 				scenario("pushwait,pushwait|popwait,popwait", capa, capa, rot, "", prog{"pushwait:1", "pushwait:2"}, prog{"popwait", "popwait"}),
